@@ -341,6 +341,13 @@ func init() {
 				}
 			}
 		}
+		// tags the package has no name for, in the upper half of the 32-bit range (they are printed as numbers; this
+		// stream also runs against a 32-bit build of the tool)
+		for _, t := range []rscp.Tag{0x80800001, 0x80000001, 0xff800001, 0xffffffff, 0x7f800001, 0x7fffffff} {
+			u := rscp.Message{Tag: t, DataType: rscp.UInt16, Value: uint16(7)}
+			run([]rscp.Message{u}, "unnamed-high-tag", false)
+			run([]rscp.Message{u, {Tag: rscp.BAT_DATA, DataType: rscp.Container, Value: []rscp.Message{u, {Tag: t, DataType: rscp.Container, Value: []rscp.Message{u}}}}}, "unnamed-high-tag nested", false)
+		}
 		for _, f := range []float64{math.NaN(), math.Inf(1), math.Inf(-1)} {
 			run([]rscp.Message{{Tag: rscp.EMS_POWER_PV, DataType: rscp.Double64, Value: f}}, "nan-inf", true)
 			run([]rscp.Message{{Tag: rscp.EMS_POWER_PV, DataType: rscp.Float32, Value: float32(f)}}, "nan-inf", true)
@@ -389,7 +396,26 @@ func tagKeyGo(t rscp.Tag) string {
 	return s
 }
 
+// numericKeyWrong: a tag without a name is printed as the decimal number it is (an unsigned 32-bit value)
+func numericKeyWrong(ms []rscp.Message) string {
+	for _, m := range ms {
+		k := tagKeyGo(m.Tag)
+		if k != "" && (k[0] == '-' || (k[0] >= '0' && k[0] <= '9')) && k != strconv.FormatUint(uint64(m.Tag), 10) {
+			return fmt.Sprintf("the tag %d without a name is printed as %q", uint32(m.Tag), k)
+		}
+		if c, ok := m.Value.([]rscp.Message); ok {
+			if why := numericKeyWrong(c); why != "" {
+				return why
+			}
+		}
+	}
+	return ""
+}
+
 func structureOK(ms []rscp.Message, format string, txt []byte) string {
+	if why := numericKeyWrong(ms); why != "" {
+		return why
+	}
 	dec := json.NewDecoder(bytes.NewReader(txt))
 	dec.UseNumber()
 	var v interface{}
